@@ -16,7 +16,7 @@ import (
 // is harmless.
 
 func init() {
-	register(&Prop{ID: "C10", Run: runC10, Quick: 15000, Thorough: 150000, Level: "exploration"})
+	register(&Prop{ID: "C10", Run: runC10, Quick: 15000, Thorough: 1000000, Level: "exploration"})
 }
 
 var c10Ops = []string{"Read", "Reader", "Write", "Writer", "Ping"}
